@@ -1,4 +1,5 @@
 import Momo.Model.Ver
+import Momo.Model.VerTableX
 import Driver.Engine
 /-!
   Line protocol of the model `Ver` (C15).  `model ver fam=hash|tree|mmap|arr|table [multi=1] [segA=0 segB=1]`.
@@ -307,7 +308,20 @@ def bRun (s : St) (op : BOp) (slot : Option Nat) (quiet : Bool := false) : St ×
     | _, _ => s1
   (s2, bres quiet r.2 ++ tbTail s2)
 
+/-- the same for the additional entry points of Model/VerTableX.lean -/
+def bRunX (s : St) (op : BOpX) (slot : Option Nat) (quiet : Bool := false) : St × String :=
+  let r := s.bw.stepX op
+  let s1 := { s with bw := r.1 }
+  let s2 := match slot, r.2 with
+    | some d, some (.ref x) => { s1 with rr := setAt s1.rr d x }
+    | some d, some (.refFlag x _) => { s1 with rr := setAt s1.rr d x }
+    | _, _ => s1
+  (s2, bres quiet r.2 ++ tbTail s2)
+
 def bStep (s : St) : List String → St × String
+  | ["updrowof", o, src, i, a, b, d] => bRunX s (.updRowOf (ob o) (ob src) (nat! i) (nat! a) (nat! b)) (some (nat! d))
+  | ["mbadv", m, i] => bRunX s (.mbAdv (s.mb[nat! m]!) (nat! i)) none
+  | ["mbit", m, i, d] => bRunX s (.mbIt (s.mb[nat! m]!) (nat! i)) (some (nat! d)) true
   | ["at", o, i, d] => bRun s (.at_ (ob o) (nat! i)) (some (nat! d))
   | ["get", r] => bRun s (.get (s.rr[nat! r]!)) none
   | ["add", o, a, b, d] => bRun s (.add (ob o) (nat! a) (nat! b)) (some (nat! d))
